@@ -5,6 +5,7 @@ that the correspondence check compares with the real FSM after every command).
 -/
 import InfluxVerif.Model.Meta
 import InfluxVerif.Lemmas.MetaInv
+import InfluxVerif.Lemmas.MetaIds
 import Mathlib.Data.List.Nodup
 import InfluxVerif.Gen.C06
 
@@ -270,5 +271,248 @@ theorem at_most_one_group_serves (auto : Bool) (d : Data) (log : Log) (hv : ∀ 
 /-- the empty metadata satisfies the invariant (the premise is not vacuous), and so does a
 metadata value with two adjacent groups, one of them truncated -/
 example : DataOK ({} : Data) := by intro db hdb; simp at hdb
+
+/-! ### ids are unique and never handed out twice -/
+
+theorem applyCmd_ids (auto : Bool) (d d' : Data) (c : Cmd) (h : applyCmd auto d c = .ok d')
+    (hok : IdsOK d) : IdsOK d' := by
+  cases c with
+  | createDatabase name rp =>
+    simp only [applyCmd, bind, Except.bind] at h
+    cases h1 : createDatabase d name with
+    | error e => simp [h1] at h
+    | ok d1 =>
+      simp only [h1] at h
+      have hok1 := createDatabase_ids d d1 name h1 hok
+      cases rp with
+      | none =>
+        simp only at h
+        split at h
+        · exact createRP_ids _ _ _ _ _ _ _ _ h hok1
+        · cases h; exact hok1
+      | some r =>
+        obtain ⟨rpn, replicaN, dur, sgd⟩ := r
+        simp only at h
+        cases h2 : createRetentionPolicy d1 name rpn replicaN dur sgd true with
+        | error e =>
+          rw [h2] at h
+          split at h <;> cases h
+        | ok d2 =>
+          rw [h2] at h
+          simp only at h
+          cases h
+          exact createRP_ids _ _ _ _ _ _ _ _ h2 hok1
+  | dropDatabase name => exact dropDatabase_ids d d' name h hok
+  | createRP db name replicaN dur sgd dflt => exact createRP_ids _ _ _ _ _ _ _ _ h hok
+  | dropRP db name => exact dropRP_ids _ _ _ _ h hok
+  | updateRP db name nn dur rn sgd dflt => exact updateRP_ids _ _ _ _ _ _ _ _ _ h hok
+  | createSG db rp ts => exact createSG_ids _ _ _ _ _ h hok
+  | deleteSG db rp id age => exact deleteSG_ids _ _ _ _ _ _ h hok
+  | truncate ts => simp only [applyCmd] at h; cases h; exact truncate_ids d ts hok
+  | prune => simp only [applyCmd] at h; cases h; exact prune_ids d hok
+  | dropShard id age => simp only [applyCmd] at h; cases h; exact dropShard_ids d id age hok
+  | copyOwner s n => simp only [applyCmd] at h; cases h; exact copyOwner_ids d s n hok
+  | removeOwner s n age => simp only [applyCmd] at h; cases h; exact removeOwner_ids d s n age hok
+  | createDataNode a t => exact createDataNode_ids _ _ _ _ h hok
+  | deleteDataNode id age => exact deleteDataNode_ids _ _ _ _ h hok
+  | updateDataNode id a t => exact updateDataNode_ids _ _ _ _ _ h hok
+  | createMetaNode a t rand =>
+    simp only [applyCmd] at h
+    cases h
+    apply setClusterID_ids
+    split
+    · rename_i d2 hd2; exact createMetaNode_ids _ _ _ _ hd2 hok
+    · exact hok
+  | deleteMetaNode id =>
+    simp only [applyCmd] at h
+    split at h
+    · exact deleteMetaNode_ids _ _ _ h hok
+    · cases h
+  | setMetaNode a t rand =>
+    simp only [applyCmd] at h
+    cases h
+    apply setClusterID_ids
+    split
+    · rename_i d2 hd2; exact setMetaNode_ids _ _ _ _ hd2 hok
+    · exact hok
+  | createUser n hs a => exact createUser_ids _ _ _ _ _ h hok
+  | dropUser n => exact dropUser_ids _ _ _ h hok
+  | updateUser n hs => exact updateUser_ids _ _ _ _ h hok
+  | setPrivilege u db p => exact setPrivilege_ids _ _ _ _ _ h hok
+  | setAdmin u a => exact setAdmin_ids _ _ _ _ h hok
+  | createCQ db n q => exact createCQ_ids _ _ _ _ _ h hok
+  | dropCQ db n => exact dropCQ_ids _ _ _ _ h hok
+  | createSub db rp n m ds bad => exact createSub_ids _ _ _ _ _ _ _ _ h hok
+  | dropSub db rp n => exact dropSub_ids _ _ _ _ _ h hok
+
+/-- no command lowers the two id counters -/
+def CountersLe (d d' : Data) : Prop := d.maxSG ≤ d'.maxSG ∧ d.maxShard ≤ d'.maxShard
+
+theorem CountersLe.refl (d : Data) : CountersLe d d := ⟨Nat.le_refl _, Nat.le_refl _⟩
+theorem CountersLe.trans {a b c : Data} (h1 : CountersLe a b) (h2 : CountersLe b c) : CountersLe a c :=
+  ⟨Nat.le_trans h1.1 h2.1, Nat.le_trans h1.2 h2.2⟩
+
+macro "counters" h:ident : tactic =>
+  `(tactic| (repeat' split at $h:ident) <;> first
+      | (cases $h:ident; done)
+      | (cases $h:ident; exact ⟨Nat.le_refl _, Nat.le_refl _⟩)
+      | (cases $h:ident; exact ⟨Nat.le_succ _, Nat.le_add_right _ _⟩))
+
+theorem createRP_counters (d d' : Data) (dbn n : String) (r du sg : Int) (df : Bool)
+    (h : createRetentionPolicy d dbn n r du sg df = .ok d') : CountersLe d d' := by
+  unfold createRetentionPolicy at h
+  by_cases h1 : n = ""
+  · simp [h1] at h
+  by_cases h2 : n.length > maxNameLen
+  · simp [h1, h2] at h
+  by_cases h3 : r < 1
+  · simp [h1, h2, h3] at h
+  by_cases h4 : (decide (du > 0) && decide (du < normalisedShardDuration sg du)) = true
+  · simp [h1, h2, h3, h4] at h
+  simp only [h1, h2, h3, h4, ↓reduceIte] at h
+  counters h
+
+theorem createDatabase_counters (d d' : Data) (n : String) (h : createDatabase d n = .ok d') : CountersLe d d' := by
+  unfold createDatabase at h; counters h
+
+theorem mapGroupsM_counters (d d' : Data) (f : SG → Except String SG) (h : mapGroupsM d f = .ok d') : CountersLe d d' := by
+  rw [mapGroupsM_eq] at h
+  cases hdbs : d.dbs.mapM (dbM f) with
+  | error e => simp [hdbs, bind, Except.bind] at h
+  | ok dbs =>
+    simp only [hdbs, bind, Except.bind, pure, Except.pure, Except.ok.injEq] at h
+    subst h
+    exact CountersLe.refl d
+
+theorem createMetaNode_counters (d d' : Data) (a t : String) (h : createMetaNode d a t = .ok d') : CountersLe d d' := by
+  unfold createMetaNode at h; counters h
+
+theorem setMetaNode_counters (d d' : Data) (a t : String) (h : setMetaNode d a t = .ok d') : CountersLe d d' := by
+  unfold setMetaNode at h
+  split at h
+  · exact createMetaNode_counters d d' a t h
+  · cases h; exact CountersLe.refl d
+  · cases h
+
+theorem setClusterID_counters (d : Data) (r : Nat) : CountersLe d (setClusterID d r) := by
+  unfold setClusterID; split <;> exact CountersLe.refl d
+
+theorem applyCmd_counters (auto : Bool) (d d' : Data) (c : Cmd) (h : applyCmd auto d c = .ok d') : CountersLe d d' := by
+  cases c with
+  | createDatabase name rp =>
+    simp only [applyCmd, bind, Except.bind] at h
+    cases h1 : createDatabase d name with
+    | error e => simp [h1] at h
+    | ok d1 =>
+      simp only [h1] at h
+      have hc1 := createDatabase_counters d d1 name h1
+      cases rp with
+      | none =>
+        simp only at h
+        split at h
+        · exact hc1.trans (createRP_counters _ _ _ _ _ _ _ _ h)
+        · cases h; exact hc1
+      | some r =>
+        obtain ⟨rpn, replicaN, dur, sgd⟩ := r
+        simp only at h
+        cases h2 : createRetentionPolicy d1 name rpn replicaN dur sgd true with
+        | error e =>
+          rw [h2] at h
+          split at h <;> cases h
+        | ok d2 =>
+          rw [h2] at h
+          simp only at h
+          cases h
+          exact hc1.trans (createRP_counters _ _ _ _ _ _ _ _ h2)
+  | dropDatabase name => simp only [applyCmd, dropDatabase] at h; counters h
+  | createRP db name replicaN dur sgd dflt => exact createRP_counters _ _ _ _ _ _ _ _ h
+  | dropRP db name => simp only [applyCmd, dropRetentionPolicy] at h; counters h
+  | updateRP db name nn dur rn sgd dflt => simp only [applyCmd, updateRetentionPolicy] at h; counters h
+  | createSG db rp ts => simp only [applyCmd, createShardGroup] at h; counters h
+  | deleteSG db rp id age => simp only [applyCmd, deleteShardGroup] at h; counters h
+  | truncate ts => simp only [applyCmd] at h; cases h; exact CountersLe.refl d
+  | prune => simp only [applyCmd] at h; cases h; exact CountersLe.refl d
+  | dropShard id age =>
+    simp only [applyCmd] at h; cases h
+    unfold dropShard withShardGroup; split <;> exact CountersLe.refl d
+  | copyOwner s n =>
+    simp only [applyCmd] at h; cases h
+    unfold copyShardOwner withShardGroup; split <;> exact CountersLe.refl d
+  | removeOwner s n age =>
+    simp only [applyCmd] at h; cases h
+    unfold removeShardOwner withShardGroup; split <;> exact CountersLe.refl d
+  | createDataNode a t => simp only [applyCmd, createDataNode] at h; counters h
+  | deleteDataNode id age =>
+    simp only [applyCmd, deleteDataNode] at h
+    split at h
+    · have := mapGroupsM_counters _ _ _ h
+      exact ⟨this.1, this.2⟩
+    · cases h
+  | updateDataNode id a t => simp only [applyCmd, updateDataNode] at h; counters h
+  | createMetaNode a t rand =>
+    simp only [applyCmd] at h
+    cases h
+    refine CountersLe.trans ?_ (setClusterID_counters _ _)
+    split
+    · rename_i d2 hd2; exact createMetaNode_counters _ _ _ _ hd2
+    · exact CountersLe.refl d
+  | deleteMetaNode id =>
+    simp only [applyCmd, deleteMetaNode] at h; counters h
+  | setMetaNode a t rand =>
+    simp only [applyCmd] at h
+    cases h
+    refine CountersLe.trans ?_ (setClusterID_counters _ _)
+    split
+    · rename_i d2 hd2; exact setMetaNode_counters _ _ _ _ hd2
+    · exact CountersLe.refl d
+  | createUser n hs a => simp only [applyCmd, createUser] at h; counters h
+  | dropUser n => simp only [applyCmd, dropUser] at h; counters h
+  | updateUser n hs => simp only [applyCmd, updateUser] at h; counters h
+  | setPrivilege u db p => simp only [applyCmd, setPrivilege] at h; counters h
+  | setAdmin u a => simp only [applyCmd, setAdminPrivilege] at h; counters h
+  | createCQ db n q => simp only [applyCmd, createCQ] at h; counters h
+  | dropCQ db n => simp only [applyCmd, dropCQ] at h; counters h
+  | createSub db rp n m ds bad => simp only [applyCmd, createSubscription] at h; counters h
+  | dropSub db rp n => simp only [applyCmd, dropSubscription] at h; counters h
+
+theorem step_ids (auto : Bool) (d : Data) (c : Cmd) (term index : Nat) (hok : IdsOK d) :
+    IdsOK (step auto d c term index).1 := by
+  unfold step
+  split
+  · rename_i d' hd
+    exact idsOK_of_same _ d' rfl rfl rfl (applyCmd_ids auto d d' c hd hok)
+  · exact idsOK_of_same _ d rfl rfl rfl hok
+
+/-- **Shard-group ids and shard ids are unique, along every command log** — over all
+databases and policies — and none exceeds the counter it was drawn from. A new group takes
+the counter plus one and its shards the next values of theirs (`createSG_ids_core`), and no
+command lowers a counter, so an id is never handed out twice, not even after the group or
+shard that held it was deleted and pruned. No hypothesis on the commands is needed. -/
+theorem ids_unique_never_reused (auto : Bool) (d : Data) (log : Log) (hok : IdsOK d) :
+    IdsOK (run auto d log) := by
+  unfold run
+  induction log generalizing d with
+  | nil => exact hok
+  | cons e rest ih =>
+    simp only [List.foldl_cons]
+    exact ih _ (step_ids auto d e.1 e.2.1 e.2.2 hok)
+
+/-- the counters never go down along a log (so an id once handed out stays below them) -/
+theorem counters_never_decrease (auto : Bool) (d : Data) (log : Log) : CountersLe d (run auto d log) := by
+  unfold run
+  induction log generalizing d with
+  | nil => exact CountersLe.refl d
+  | cons e rest ih =>
+    simp only [List.foldl_cons]
+    refine CountersLe.trans ?_ (ih _)
+    unfold step
+    split
+    · rename_i d' hd
+      have := applyCmd_counters auto d d' e.1 hd
+      exact ⟨this.1, this.2⟩
+    · exact CountersLe.refl d
+
+example : IdsOK ({} : Data) := by
+  refine ⟨?_, ?_, ?_, ?_⟩ <;> simp [allGroups]
 
 end InfluxVerif.Meta
